@@ -4,11 +4,12 @@
 set -u
 . "$(dirname "$0")/env.sh"
 prop="$1"; tier="${2:-${VERIF_TIER:-quick}}"
+bindir="${VERIF_BIN:-$VERIF_HOME/bin}"
 case "$prop" in
-  C15|C16) flavour=race; bin="$VERIF_HOME/bin/verif-race" ;;
-  *)       flavour=plain; bin="$VERIF_HOME/bin/verif" ;;
+  C15|C16) flavour=race; bin="$bindir/verif-race" ;;
+  *)       flavour=plain; bin="$bindir/verif" ;;
 esac
 "$VERIF_HOME/scripts/build.sh" "$flavour" || exit 2
 cd "$VERIF_HOME" || exit 2
-ulimit -v 33554432 2>/dev/null   # 32 GiB of address space per process
+[ "$flavour" = plain ] && ulimit -v 33554432 2>/dev/null   # 32 GiB of address space per process (not for -race: TSan reserves TiBs)
 exec "$bin" run --prop "$prop" --tier "$tier"
